@@ -19,6 +19,13 @@ def cases(seed, tier):
         out.append({"group": "extra", "seed": sub_seed(seed, "c16xs", i), "chained": i % 2 == 1, "loss": ["exp", "square", "product"][i % 3],
                     "which": rng.choice(["a", "m", "s", "am", "ms", "ams", "ams"]), "ns": rng.choice([20, 40, 60]),
                     "holder": ["explicit", "em"][(i // 6) % 2]})
+    # history on one object: expectation, the object's tensors re-assigned (a second generation derived from the same leaves), expectation again,
+    # then ONE backward pass through a loss on both results
+    nl = 24 if tier == "quick" else 240
+    for i in range(nl):
+        rng = random.Random(sub_seed(seed, "c16l", i))
+        out.append({"group": "extra", "seed": sub_seed(seed, "c16ls", i), "chained": i % 2 == 1, "loss": ["exp", "square", "product"][i % 3],
+                    "which": rng.choice(["a", "m", "s", "am", "ms", "ams", "ams"]), "ns": rng.choice([20, 40]), "holder": "em", "late": True})
     return out
 
 
@@ -50,7 +57,7 @@ def run_case(desc):
     lb, ub = -8.0, 8.0
     vals = {"a": 0.5 + torch.rand(2, generator=tg, dtype=DT), "m": 0.4 * torch.randn(1, generator=tg, dtype=DT),
             "s": 0.9 + 0.4 * torch.rand(1, generator=tg, dtype=DT)}
-    mech = "%s:%s:%s:%s" % ("chained" if desc["chained"] else "plain", which, desc["loss"], desc["holder"])
+    mech = "%s:%s:%s:%s%s" % ("chained" if desc["chained"] else "plain", which, desc["loss"], desc["holder"], ":late" if desc.get("late") else "")
     V = {k: torch.randn(v.shape, generator=tg, dtype=DT) for k, v in vals.items()}
 
     def run(kind):
@@ -59,6 +66,8 @@ def run_case(desc):
         sg = (s0 + 0.2 * (a * a).sum()) if (desc["chained"] and "a" in which) else s0 * 1.0
         if kind == "ref":
             y = _ref(a, mu, sg, ns, lb, ub)
+            if desc.get("late"):
+                y = torch.cat([y, _ref(1.2 * a, mu + 0.3, sg * 0.8, ns, lb, ub)])
         else:
             f = lambda x, a_: (a_ * x * x + torch.sin(a_ * x)).reshape(-1)
             lp = lambda x, mu_, sg_: (-0.5 * ((x - mu_) / sg_) ** 2).sum()
@@ -79,6 +88,9 @@ def run_case(desc):
                         return [prefix + "a"] if methodname == "ff" else [prefix + "held[0]", prefix + "held[1]"]
                 e = E()
                 y = mcquad(e.ff, e.lp, torch.zeros(1, dtype=DT), method="_dummy1d", nsamples=ns, lb=lb, ub=ub)
+                if desc.get("late"):
+                    e.a, e.held = 1.2 * a, [mu + 0.3, sg * 0.8]          # the same object, second generation
+                    y = torch.cat([y, mcquad(e.ff, e.lp, torch.zeros(1, dtype=DT), method="_dummy1d", nsamples=ns, lb=lb, ub=ub)])
         leaves = [lv[k] for k in ("a", "m", "s") if k in which]
         L = _loss(desc["loss"], y)
         g = torch.autograd.grad(L, leaves, create_graph=True, allow_unused=True)
@@ -106,5 +118,7 @@ def run_case(desc):
         obs.check(err <= 1e-8 * sc2, "extra_grad2:%s:%s" % (n_, mech),
                   "Hessian-vector product of a loss nonlinear in the expectation differs by %.3e (scale %.2e) w.r.t. %s" % (err, sc2, n_))
     obs.count("extra_second_order_compared", len(names))
+    if desc.get("late"):
+        obs.count("extra_late_backward_histories")
     obs.nontrivial = True
     return obs.result()
